@@ -3,8 +3,7 @@ from props import Prop, Stream, reg
 reg(Prop('C13', [
     Stream('c13.new', 1, 1, 'model', exhaustive='every (line_base, line_range) in -128..127 x 0..255'),
     Stream('c13.newpre', 1, 1, 'oracle', exhaustive='every (line_base, line_range) in -128..127 x 0..255 against the documented precondition'),
-    Stream('c13.grid', 3, 24, 'model', exhaustive='per LineEncoding tuple: every line advance -300..300 x operation advance 0..600 (361201 two-row programs)'),
-    Stream('c13.gridx', 4, 24, 'oracle', modes=('release',)),
+    Stream('c13.grid', 4, 24, 'model', exhaustive='per LineEncoding tuple: every line advance -300..300 x operation advance 0..600 (361201 two-row programs)'),
     Stream('c13.prog', 60000, 3000000, 'model'),
     Stream('c13.known', 20, 200, 'oracle'),
 ], clauses=[], design_ref='§5 C13',
